@@ -582,6 +582,31 @@ class Inliner:
                     and st.value.id == st.targets[0].id:
                 out.extend(hoisted)  # x = helper(...) whose returned local is itself called x
                 continue
+            # a, b = helper(...) whose returned tuple is (a, b) / (y1, y2) of its own locals: the same, element by element
+            if hoisted and isinstance(st, ast.Assign) and len(st.targets) == 1 and isinstance(st.targets[0], (ast.Tuple, ast.List)) and isinstance(st.value, (ast.Tuple, ast.List)) \
+                    and len(st.targets[0].elts) == len(st.value.elts) and all(isinstance(e, ast.Name) for e in list(st.targets[0].elts) + list(st.value.elts)):
+                xs = [e.id for e in st.targets[0].elts]
+                ys = [e.id for e in st.value.elts]
+                inside = {n.id for h in hoisted for n in ast.walk(h) if isinstance(n, ast.Name)}
+                bound = {n.id for h in hoisted for n in ast.walk(h) if isinstance(n, ast.Name) and isinstance(n.ctx, ast.Store)}
+                own = {id(n) for n in ast.walk(st)}
+                host_names = {n.id for n in ast.walk(fi.node) if isinstance(n, ast.Name) and id(n) not in own} | {a.arg for a in ast.walk(fi.node) if isinstance(a, ast.arg)}
+                ren = {}
+                ok_all = len(set(xs)) == len(xs) and len(set(ys)) == len(ys)
+                for x, y in zip(xs, ys):
+                    if x == y:
+                        continue
+                    if y in bound and x not in inside and y not in host_names and x not in ys:
+                        ren[y] = x
+                    else:
+                        ok_all = False
+                if ok_all:
+                    for h in hoisted:
+                        for n in ast.walk(h):
+                            if isinstance(n, ast.Name) and n.id in ren:
+                                n.id = ren[n.id]
+                    out.extend(hoisted)
+                    continue
             # x = helper(...) where the helper returns its own local y: the absorbed body works on x directly
             if hoisted and isinstance(st, ast.Assign) and len(st.targets) == 1 and isinstance(st.targets[0], ast.Name) and isinstance(st.value, ast.Name) \
                     and st.value.id != st.targets[0].id:
@@ -596,6 +621,17 @@ class Inliner:
                             if isinstance(n, ast.Name) and n.id == y:
                                 n.id = x
                     out.extend(hoisted)
+                    continue
+            # a, b, c = (expr, b, c): the identity components say nothing; the others are plain assignments (as long as no value
+            # reads a name the statement itself assigns)
+            if hoisted and isinstance(st, ast.Assign) and len(st.targets) == 1 and isinstance(st.targets[0], (ast.Tuple, ast.List)) and isinstance(st.value, (ast.Tuple, ast.List)) \
+                    and len(st.targets[0].elts) == len(st.value.elts) and all(isinstance(e, ast.Name) for e in st.targets[0].elts):
+                pairs = [(t_, v_) for t_, v_ in zip(st.targets[0].elts, st.value.elts) if not (isinstance(v_, ast.Name) and v_.id == t_.id)]
+                assigned = {t_.id for t_, _ in pairs}
+                if len(pairs) < len(st.value.elts) and not any({n.id for n in ast.walk(v_) if isinstance(n, ast.Name)} & assigned for _, v_ in pairs):
+                    out.extend(hoisted)
+                    for t_, v_ in pairs:
+                        out.append(ast.copy_location(ast.Assign(targets=[ast.Name(id=t_.id, ctx=ast.Store())], value=v_), st))
                     continue
             # an expression statement whose value was a helper without return value
             if isinstance(st, ast.Expr) and isinstance(st.value, ast.Constant) and st.value.value is None and hoisted:
